@@ -189,14 +189,14 @@ func (spec *Spec) ParsePatterns(ctx context.Context) error {
 		spec.PatternParser = DefaultPatternParser
 	}
 
-	if spec.Nodes == nil {
-		return nil
-	}
-
 	// The syntax has to be one the parser knows even if there
-	// is no pattern to parse.
+	// is no pattern to parse (and no node at all).
 	if _, err := spec.PatternParser(spec.PatternSyntax, nil); err != nil {
 		return err
+	}
+
+	if spec.Nodes == nil {
+		return nil
 	}
 
 	// Parse every pattern before replacing any: if one of them
